@@ -495,6 +495,20 @@ func runC14(seed int64, count int) {
 			}
 			emit("C14 countof %s %d", arg, utils.CountOf(m))
 		}
+		// (only scripts that end when they say so: an error flag, if any, is on the last fragment)
+		if i := strings.Index(spec, "!"); strings.HasPrefix(spec, "R:") && !strings.Contains(spec, "!err") && len(spec) < 4000 && (i < 0 || !strings.Contains(spec[i:], ";")) {
+			// byte-wise reading of a scripted reader (fragments, empty reads, the last byte together with io.EOF)
+			br := utils.NewByteReader(mk().(io.Reader))
+			var got []byte
+			for i := 0; i < 1<<20; i++ {
+				c, err := br.ReadByte()
+				if err != nil {
+					break
+				}
+				got = append(got, c)
+			}
+			emit("C14 bytereader %s %s", spec, hexOrDash(got))
+		}
 		if strings.HasPrefix(spec, "r:") || strings.HasPrefix(spec, "u:") {
 			br := utils.NewByteReader(mk().(io.Reader))
 			var got []byte
